@@ -506,6 +506,9 @@ def _tx(self, op):
         if kind == 'end': self.session = None
         self._reset_after_rollback()
         self.observe_commit('after failed ' + kind)
+        if isinstance(exc, self.core.IsolationError) and not dups:
+            # a loud (possibly spurious) optimistic-check / unrepeatable-read error at flush: the session is lost
+            return 'raised_session_lost'
         return 'raised_conflict' if dups else 'raised_unexpected'
     if kind == 'rollback':
         orm.rollback()
